@@ -523,6 +523,45 @@ def part_a4(chk, drv, impl):
             if e != (ki == keys[j]) and len(chk.stale) < 20:
                 chk.stale.append({"kind": "eqhash", "a": list(objs[i][0]), "b": list(objs[j][0]), "impl_eq": e,
                                   "model_eq": ki == keys[j]})
+    # the Lean definitions of eq (Schema/Table/Path/SubQuery/Column.eq, Parent.eq, addParent) against real `==`
+    if drv is not None:
+        pool = list(all_strings(1)) + ['"Ab"', "Ab", "ab", "`Ab`", "[Ab]", "s.T", "S.t", '"s".T', "<default>.ab", "<DEFAULT>",
+                                       "a.b.c.d", '"a.b"']
+        ents = []
+        for s_ in pool:
+            ents += [["Schema", s_], ["Table", s_], ["Path", s_], ["Column", s_, []],
+                     ["Column", s_, [["table", "s.t"]]], ["Column", s_, [["table", "S.T"], ["table", "s.t"]]],
+                     ["Column", s_, [["table", "s.t"], ["table", "s.u"]]], ["Column", s_, [["path", "p"]]],
+                     ["Column", s_, [["subquery", "(q)", "s.t"]]], ["SubQuery", s_, "al"], ["SubQuery", s_, "s.t"]]
+        real = []
+        with warnings.catch_warnings():
+            warnings.simplefilter("ignore")
+            for e in ents:
+                try:
+                    if e[0] == "Column":
+                        o = impl.Column(e[1])
+                        for ps in e[2]:
+                            o.parent = build_parent(impl, ps)
+                    elif e[0] == "SubQuery":
+                        o = impl.SubQuery(None, e[1], e[2])
+                    else:
+                        o = {"Schema": impl.Schema, "Table": impl.Table, "Path": impl.Path}[e[0]](e[1])
+                except impl.LineageExc:
+                    o = None
+                real.append(o)
+        ans = drv.ask1({"cmd": "namesEq", "ents": ents})
+        if "error" in ans:
+            raise Infra("model driver error: " + ans["error"])
+        model_eq = {tuple(x) for x in ans["eq"]}
+        impl_eq = {(i, j) for i in range(len(real)) for j in range(i, len(real))
+                   if real[i] is not None and real[j] is not None and real[i] == real[j]}
+        impl_str = [None if o is None else str(o) for o in real]
+        n += len(real) * (len(real) + 1) // 2
+        if impl_str != ans["str"] or impl_eq != model_eq:
+            diff = sorted(impl_eq ^ model_eq)[:5]
+            chk.stale.append({"kind": "eq-model", "pairs": [[ents[i], ents[j], (i, j) in impl_eq] for i, j in diff],
+                              "str_diff": [[ents[i], a, b] for i, (a, b) in enumerate(zip(impl_str, ans["str"])) if a != b][:5]})
+        chk.coverage["eq_pairs_vs_model"] = len(real) * (len(real) + 1) // 2
     chk.count(("a4", len(objs)), True, n=n)
     chk.sample({"eq_hash_pool": len(objs), "pairs": n, "equal_pairs": eqs}, limit=8)
     return n, eqs
@@ -883,6 +922,9 @@ def run(chk):
             chk.lean.bad_axioms.append(("leanchecker", [out[-300:]]))
     chk.coverage.update({
         "exhaustive": not chk.violations,
+        "exhaustive_scope": "A1-A3 enumerate their finite spaces completely; A4 is all pairs of a seeded pool; B enumerates "
+                            "every uniform spelling x template x dialect (thorough: plus all per-part spellings for 2 parts "
+                            "and a seeded sample for 3 parts)",
         "alphabet": ALPHABET,
         "max_length": 6 if chk.tier == "thorough" else 5,
         "strings_vs_model": n1, "table_references_vs_model": n2, "source_resolutions_vs_model": n3,
